@@ -336,8 +336,16 @@ def decide_obligation(ob, tier, pool=None):
     os.makedirs(os.path.join(C.BUILD, "smt"), exist_ok=True)
     mapper = pool.map if pool is not None else map
     # phase 1: which paths are feasible at all (also the vacuity check)
-    # (with ALL axioms: a satisfiable answer also shows the axiom instances are jointly consistent on this path)
-    feas_scripts = [query_script(enc, ob, p, hdr_ext) for p in ob["paths"]]
+    # feasibility / vacuity: variable ranges + path condition + assumptions only (their own cone of influence and the
+    # axiom instances on it), so that the size of the goal terms does not matter
+    fenc = Encoder(ob)
+    froots = []
+    for p in ob["paths"]:
+        froots += [c for c, _ in p["pc"]] + list(p["assume"])
+    fenc.encode(froots)
+    fax, fext, _ = AX.ground_axioms(fenc, ob)
+    fhdr = fenc.header() + AX.declarations(fenc.used_uf) + fenc.lines + fax + fext
+    feas_scripts = [query_script(fenc, ob, p, fhdr) for p in ob["paths"]]
     feas_out = list(mapper(lambda sc: run_z3(sc, min(cap, 60)), feas_scripts))
     o.queries = len(feas_out)
     o.solver_s = sum(t for _, t in feas_out)
